@@ -162,6 +162,7 @@ impl Monitor for C02 {
             ("api:lax::Monoidal::tensor", 100),
             ("api:lax::bitor", 100),
             ("api:lax::tensor_assign", 200),
+            ("class:operand_with_several_hundred_wires", 100),
             ("law:unit", 200),
             ("law:lax_unit", 200),
         ]
@@ -184,6 +185,20 @@ impl Monitor for C02 {
             5 => {
                 let d: P = POh { w: vec![0, 0, 0], e: vec![], s: vec![2, 0], t: vec![1, 1, 1] };
                 self.strict(ctx, "discrete", &d, &a, &d);
+            }
+            _ if r.chance(1, 400) => {
+                // wide operands: interfaces and incidence arrays of several hundred entries
+                let n = r.range(260, 420);
+                let wide = |r: &mut Rng| -> P {
+                    let w: Vec<u32> = (0..n).map(|_| r.below(3) as u32).collect();
+                    let e = vec![PEdge { l: 0, s: r.vec_below(n, n), t: r.vec_below(5, n) }];
+                    POh { w, e, s: r.vec_below(n, n), t: r.vec_below(n / 2, n) }
+                };
+                let (f, g) = (gen::oh(r, &OhParams::small()), wide(r));
+                ctx.class("operand_with_several_hundred_wires");
+                let small = gen::oh(r, &OhParams::tiny());
+                self.strict(ctx, "wide", &f, &g, &small);
+                self.lax(ctx, "wide", &f.to_lax(), &g.to_lax(), &small.to_lax());
             }
             _ => {
                 let params = match r.below(4) { 0 => OhParams::tiny(), 1 | 2 => OhParams::small(), _ => if ctx.thorough { OhParams::medium() } else { OhParams::dense() } };
